@@ -17,10 +17,11 @@ from ..values_common import (FAM, INT_KINDS, FLOAT_KINDS, INT_RANGE, INT_WIDTH, 
 
 THEOREMS = [
     "C09_table_ok", "C09_int_roundtrip", "C09_extent", "C09_atomic_partial", "C09_atomic_refuted",
-    "C09_readback_scalar", "C09_readback_index", "C09_readback_whole", "C09_refuse_partial", "C09_refuse_refuted",
-    "C09_float_nearest", "C09_float_overflow_refused",
+    "C09_readback_scalar", "C09_readback_index", "C09_readback_whole", "C09_readback_sarr_index",
+    "C09_readback_sarr_whole", "C09_refuse_partial", "C09_refuse_refuted",
+    "C09_narrow_is_flocq", "C09_float_nearest", "C09_float_overflow_refused",
     "C09_flag_partial", "C09_flag_refuted", "C09_flag_stuck_off", "C09_flag_threads_independent",
-    "C09_ex_accept", "C09_ex_refuse", "C09_ex_slice",
+    "C09_ex_accept", "C09_ex_refuse", "C09_ex_slice", "C09_ex_float_array", "C09_ex_flag",
 ]
 
 NAN = 0x7FF8000000000000
@@ -687,12 +688,23 @@ def flag_spec_failures(script: List[List[int]], obs: List[int]):
 
 def run(chk: Check):
     rng = random.Random(chk.seed)
-    if not regen_or_report(chk):
-        return
-    chk.prove(FAM, "Props.C09", THEOREMS, extra_targets=["Model/Values.vo", "Model/Flag.vo"])
+    gen_ok = regen_or_report(chk)
+    if gen_ok:
+        proved = chk.prove(FAM, "Props.C09", THEOREMS, extra_targets=["Model/Values.vo", "Model/Flag.vo"])
+        if proved and chk.tier == "thorough":
+            ok, out = FAM.coqchk("Props.C09", timeout=2400)
+            chk.cov["coqchk"] = out[-1200:]
+            if not ok:
+                chk.broken_obligation("coqchk rejected Val.Props.C09", out[-600:])
+    else:
+        chk.note("translator failed closed: model correspondence skipped, failing-input search (spec oracle on the "
+                 "implementation) still runs")
 
     specs, idx, comp = class_specs()
     L = get_layouts(specs, comp)
+    if L.compile_error:
+        chk.note("classes could not be built through the real definition compiler (" + L.compile_error[:160] +
+                 "): built directly from the validator descriptors instead")
     ops = gen_ops(L, idx, rng, chk.tier)
     base = dict(classes=specs, compiled=comp)
     wire = [{k: v for k, v in o.items() if not k.startswith("_")} for o in ops]
@@ -715,7 +727,7 @@ def run(chk: Check):
             chk.spec_failure(key=v[0], desc=v[1], replay=dict(kind="op", classes=specs, compiled=comp,
                                                               op={k: x for k, x in o.items() if not k.startswith("_")},
                                                               observed=r))
-    bad, log = FAM.eval_cases(CHECK_STRICT, cases, per_file=250)
+    bad, log = FAM.eval_cases(CHECK_STRICT, cases, per_file=250) if gen_ok else ([], "")
     hard = []
     soft = 0
     if bad:
@@ -756,7 +768,7 @@ def run(chk: Check):
         nflag += 1
         for key, desc in flag_spec_failures(sc, obs):
             chk.spec_failure(key=key, desc=desc, replay=dict(kind="with", prog=p, observed=obs))
-    fbad, flog = FAM.eval_cases(FLAG_HEADER, fcases, per_file=400, tag="f")
+    fbad, flog = FAM.eval_cases(FLAG_HEADER, fcases, per_file=400, tag="f") if gen_ok else ([], "")
     for b in fbad[:3]:
         if b < 0:
             chk.broken_obligation("flag correspondence shard failed to evaluate", flog[-800:])
@@ -767,7 +779,7 @@ def run(chk: Check):
     dist["with-programs"] = len(progs)
     dist["multi-thread-scripts"] = len([s for s in scripts if s["threads"] > 1])
     chk.cov["evaluations"] = len(cases) + nflag
-    chk.cov["traces_validated_against_impl"] = len(cases) - len(hard) + nflag - len([b for b in fbad if b >= 0])
+    chk.cov["traces_validated_against_impl"] = (len(cases) - len(hard) + nflag - len([b for b in fbad if b >= 0])) if gen_ok else 0
     chk.cov["distinct_nontrivial"] = len(nontrivial)
     chk.cov["rule"] = ("one case = one assignment (attribute / index / slice, validation on or inside a disable block) on a "
                        "message with a zero, 0x11 or random byte image, run through the real descriptors+ctypes and through "
